@@ -155,6 +155,118 @@ Proof.
   - destruct rest; apply IH.
 Qed.
 
+(* ------------------------------------------------------------ the listing reaches now *)
+Section Now.
+Variables (all : list Z) (fta elapsed : Z).
+Hypothesis Hnn : Forall (fun d => 0 <= d) all.
+Hypothesis Hwin : fta <= elapsed.
+
+Lemma sumz_cons x l : sumz (x :: l) = x + sumz l.
+Proof. reflexivity. Qed.
+Lemma zlen_nonneg' {A} (l : list A) : 0 <= zlen l.
+Proof. unfold zlen. lia. Qed.
+
+(* with enough fuel the loop reaches the Period that contains [elapsed]: k = whole passes that may still be needed *)
+Lemma live_loop_reaches (k : nat) : forall fuel todo loop start,
+  (exists pre, all = pre ++ todo) -> todo <> [] -> start <= elapsed ->
+  elapsed < start + sumz todo + Z.of_nat k * sumz all ->
+  zlen todo + Z.of_nat k * zlen all < Z.of_nat fuel ->
+  exists p, In p (live_loop fuel all todo loop start fta elapsed) /\ p_start p <= elapsed < p_start p + p_dur p.
+Proof.
+  induction k as [|k IHk].
+  - (* within this pass: induction over todo *)
+    intros fuel todo. revert fuel. induction todo as [|d rest IHt]; intros fuel loop start Hsuf Hne Hs He Hf; [congruence|].
+    destruct fuel as [|f]; [pose proof (zlen_nonneg' (d :: rest)); lia|].
+    cbn [live_loop]. destruct (elapsed <? start) eqn:E; [lia|].
+    pose proof (suffix_nonneg all Hnn _ Hsuf) as Hd. inversion Hd as [|? ? Hd0 Hrest]; subst.
+    destruct (Z.ltb_spec elapsed (start + d)) as [Hin|Hout].
+    + exists (zlen all - zlen (d :: rest), loop, start, d). split.
+      * apply in_or_app. left. destruct (fta <=? start + d) eqn:Ef; [left; reflexivity|lia].
+      * cbn [p_start p_dur fst snd]. lia.
+    + destruct rest as [|d2 rest2].
+      * rewrite sumz_cons in He. change (sumz []) with 0 in He. lia.
+      * destruct (IHt f loop (start + d)) as (p & Hp & Hr).
+        -- destruct Hsuf as (pre & Epre). exists (pre ++ [d]). rewrite <- app_assoc. exact Epre.
+        -- discriminate.
+        -- lia.
+        -- rewrite sumz_cons in He. lia.
+        -- rewrite zlen_cons in Hf. lia.
+        -- exists p. split; [apply in_or_app; right; exact Hp|exact Hr].
+  - intros fuel todo. revert fuel. induction todo as [|d rest IHt]; intros fuel loop start Hsuf Hne Hs He Hf; [congruence|].
+    destruct fuel as [|f]; [pose proof (zlen_nonneg' (d :: rest)); pose proof (zlen_nonneg' all); nia|].
+    cbn [live_loop]. destruct (elapsed <? start) eqn:E; [lia|].
+    pose proof (suffix_nonneg all Hnn _ Hsuf) as Hd. inversion Hd as [|? ? Hd0 Hrest]; subst.
+    destruct (Z.ltb_spec elapsed (start + d)) as [Hin|Hout].
+    + exists (zlen all - zlen (d :: rest), loop, start, d). split.
+      * apply in_or_app. left. destruct (fta <=? start + d) eqn:Ef; [left; reflexivity|lia].
+      * cbn [p_start p_dur fst snd]. lia.
+    + destruct rest as [|d2 rest2].
+      * (* the pass is over: start the next one *)
+        assert (Hall : all <> []). { destruct Hsuf as (pre & Epre). rewrite Epre. destruct pre; discriminate. }
+        destruct (IHk f all (loop + 1) (start + d)) as (p & Hp & Hr).
+        -- exists []. reflexivity.
+        -- exact Hall.
+        -- lia.
+        -- rewrite sumz_cons in He. change (sumz []) with 0 in He. lia.
+        -- rewrite zlen_cons in Hf. change (zlen (@nil Z)) with 0 in Hf. lia.
+        -- exists p. split; [apply in_or_app; right; exact Hp|exact Hr].
+      * destruct (IHt f loop (start + d)) as (p & Hp & Hr).
+        -- destruct Hsuf as (pre & Epre). exists (pre ++ [d]). rewrite <- app_assoc. exact Epre.
+        -- discriminate.
+        -- lia.
+        -- rewrite sumz_cons in He. lia.
+        -- rewrite zlen_cons in Hf. lia.
+        -- exists p. split; [apply in_or_app; right; exact Hp|exact Hr].
+Qed.
+End Now.
+
+Theorem live_reaches_now ds fta elapsed : Forall (fun d => 0 <= d) ds -> 0 < sumz ds -> 0 <= fta -> fta <= elapsed ->
+  exists p, In p (live_periods ds fta elapsed) /\ p_start p <= elapsed < p_start p + p_dur p.
+Proof.
+  intros Hnn Ht Hf Hwin. unfold live_periods, live_fuel.
+  set (total := sumz ds) in *. set (loops := fta / total).
+  assert (Hs0 : total * loops <= fta) by (apply Z.mul_div_le; exact Ht).
+  set (x := elapsed - total * loops). assert (Hx : 0 <= x) by (unfold x; lia).
+  set (q := x / total). assert (Hq : 0 <= q) by (apply Z.div_pos; lia).
+  assert (Hqx : x < total * (q + 1)).
+  { unfold q. pose proof (Z.mul_succ_div_gt x total Ht). lia. }
+  assert (Hne : ds <> []). { intros ->. unfold total in Ht. cbn in Ht. lia. }
+  assert (Hn : 1 <= zlen ds). { destruct ds; [congruence|]. rewrite zlen_cons. pose proof (zlen_nonneg ds). lia. }
+  apply (live_loop_reaches ds fta elapsed Hnn Hwin (Z.to_nat q)).
+  - exists []. reflexivity.
+  - exact Hne.
+  - lia.
+  - rewrite Z2Nat.id by exact Hq. fold total. unfold x in Hqx. lia.
+  - rewrite Z2Nat.id by exact Hq. rewrite Z2Nat.id by nia. nia.
+Qed.
+
+Lemma pchain_cover l : pchain l -> forall p0 rest, l = p0 :: rest -> forall p, In p l -> forall t,
+  p_start p0 <= t < p_start p + p_dur p -> exists q, In q l /\ p_start q <= t < p_start q + p_dur q.
+Proof.
+  induction l as [|a l IH]; intros Hc p0 rest E p Hin t Ht; [discriminate|].
+  injection E as <- <-.
+  destruct (Z.ltb_spec t (p_start a + p_dur a)) as [Hlt|Hge].
+  - exists a. split; [left; reflexivity|lia].
+  - destruct Hin as [<-|Hin]; [lia|].
+    destruct l as [|b l']; [destruct Hin|].
+    cbn [pchain] in Hc. destruct Hc as (Hb & Hc).
+    destruct (IH Hc b l' eq_refl p Hin t ltac:(lia)) as (q & Hq & Hr).
+    exists q. split; [right; exact Hq|exact Hr].
+Qed.
+
+(* the whole time-shift window [firstAvailableTime, now] is covered by listed Periods *)
+Theorem live_covers_window ds fta elapsed : Forall (fun d => 0 <= d) ds -> 0 < sumz ds -> 0 <= fta -> fta <= elapsed ->
+  forall t, fta <= t <= elapsed ->
+  exists q, In q (live_periods ds fta elapsed) /\ p_start q <= t < p_start q + p_dur q.
+Proof.
+  intros Hnn Ht Hf Hwin t Hti.
+  destruct (live_reaches_now ds fta elapsed Hnn Ht Hf Hwin) as (p & Hp & Hr).
+  destruct (live_periods ds fta elapsed) as [|p0 rest] eqn:E; [destruct Hp|].
+  pose proof (live_first_covers ds fta elapsed p0 rest Hnn Ht Hf E) as H0.
+  pose proof (live_contiguous ds fta elapsed Hnn) as Hc. rewrite E in Hc.
+  apply (pchain_cover _ Hc p0 rest eq_refl p Hp t). lia.
+Qed.
+
 (* ids are unique per repetition: (position, loop) never repeats *)
 Theorem live_ids_unique ds fta elapsed :
   NoDup (map (fun p => (p_pos p, p_loop p)) (live_periods ds fta elapsed)).
